@@ -261,6 +261,18 @@ impl Scenario for C12 {
 
     fn execute(&self, cfg: &Cfg, acts: &[Act], st: &mut RunStats) -> Result<(), Violation> {
         st.shape_seq(refhash::xxh64(cfg.fam.as_bytes(), 0) % 1000);
+        st.shape_seq(cfg.a.min(64));
+        for a in acts {
+            st.shape_seq(match a {
+                Act::Raw { vals } => 10 + (usize::BITS - vals.len().leading_zeros()) as u64 / 3,
+                Act::Items { vals, .. } => 20 + (usize::BITS - vals.len().leading_zeros()) as u64 / 3,
+                Act::Values { bits } => 30 + (usize::BITS - bits.len().leading_zeros()) as u64 / 3,
+                Act::Merge { .. } => 40,
+                Act::Fill { .. } => 41,
+                Act::Trim => 42,
+                Act::Emit { .. } => 43,
+            });
+        }
         match cfg.fam.as_str() {
             "hll" => {
                 let lg_k = (cfg.a as u8).clamp(4, 21);
